@@ -33,6 +33,7 @@ with empty tokens, and two empty tokens at the same offset have the same range.
 import TgModel.Props.C06
 import TgModel.Props.C03
 import TgModel.Lemmas.IdeHookLog
+import TgModel.Lemmas.IdeOnceBuilt
 
 namespace Tg.C06
 open SymbolMap Tg.Ide
@@ -61,10 +62,14 @@ theorem index_textOk {ws : Workspace} (h : C03.Ready ws) {r : Index.IndexResult}
     (hr : Index.index ws = .ok r) : TextOk (fileText ws) (opsOf r) :=
   (Index.index_names h.wf h.root hr).log.textOk h.wf
 
-/-- (d) registered ranges of one file are equal or disjoint (they are token ranges) -/
-theorem index_disjointLocs {ws : Workspace} (h : C03.Ready ws) {r : Index.IndexResult}
+/-- (d) registered ranges of one file are equal or disjoint: they are ranges of identifier tokens, or the inside of
+a quoted token (`def "name"`).  `hplain`: identifiers are not quoted (`IdsPlain`: the first token of an
+`Identifier` node does not begin with `"`), which is true of every workspace built by `buildWorkspace`
+(`Index.built_idsPlain`, used by the `built_…` / `c06_all` theorems of `C06RefStable.lean`); without it a tree
+could have the same token registered as a whole and by its inside. -/
+theorem index_disjointLocs {ws : Workspace} (h : C03.Ready ws) (hplain : IdsPlain ws) {r : Index.IndexResult}
     (hr : Index.index ws = .ok r) : DisjointLocs (opsOf r) :=
-  (Index.index_names h.wf h.root hr).log.disjointLocs h.wf
+  (Index.index_names h.wf h.root hr).log.disjointLocs h.wf hplain
 
 /-- every registered location is the range of a token of its file -/
 theorem index_registrations_are_tokens {ws : Workspace} (h : C03.Ready ws) {r : Index.IndexResult}
@@ -85,20 +90,20 @@ theorem index_cursor_is_target_or_reference {ws : Workspace} {r : Index.IndexRes
 /-- clauses 1 and 2, for the indexer, without hypotheses on the log: on a ready workspace the file
 text under the cursor, under the target and under every reference of the symbol under the cursor
 is the symbol's name -/
-theorem index_same_text {ws : Workspace} (h : C03.Ready ws) {r : Index.IndexResult}
+theorem index_same_text {ws : Workspace} (h : C03.Ready ws) (hplain : IdsPlain ws) {r : Index.IndexResult}
     (hr : Index.index ws = .ok r) (file p : Nat) (c : Loc) (hc : cursorLoc (run (opsOf r)) file p = some c) :
     ∃ S, findSymbolAt (run (opsOf r)) file p = some S ∧ fileText ws c = S.name ∧
       fileText ws S.define = S.name ∧ ∀ x ∈ S.refs, fileText ws x = S.name :=
-  same_text (fileText ws) (opsOf r) (index_textOk h hr) (index_namedRefs h hr) (index_disjointLocs h hr) file p c hc
+  same_text (fileText ws) (opsOf r) (index_textOk h hr) (index_namedRefs h hr) (index_disjointLocs h hplain hr) file p c hc
 
 /-- clause 3, for the indexer: `RefsValid` and `DisjointLocs` are discharged, `RefStable` is the
 residual hypothesis (see the header) -/
-theorem index_goto_from_references_agrees {ws : Workspace} (h : C03.Ready ws) {r : Index.IndexResult}
-    (hr : Index.index ws = .ok r) (hs : RefStable (opsOf r)) (file p : Nat) (S : Sym)
+theorem index_goto_from_references_agrees {ws : Workspace} (h : C03.Ready ws) (hplain : IdsPlain ws)
+    {r : Index.IndexResult} (hr : Index.index ws = .ok r) (hs : RefStable (opsOf r)) (file p : Nat) (S : Sym)
     (hf : findSymbolAt (run (opsOf r)) file p = some S) (x : Loc) (hx : x ∈ S.refs) (hne : x.isEmpty = false)
     (q : Nat) (hq : overlaps x x.file q = true) :
     gotoDef (run (opsOf r)) x.file q = some S.define :=
-  goto_from_references_agrees (opsOf r) (index_refsValid h hr) hs (index_disjointLocs h hr) file p S hf x hx hne q hq
+  goto_from_references_agrees (opsOf r) (index_refsValid h hr) hs (index_disjointLocs h hplain hr) file p S hf x hx hne q hq
 
 /-! ### non-vacuity -/
 
@@ -128,12 +133,25 @@ theorem ex_index : ∃ r, Index.index (wsOfTree exTree) = .ok r ∧ opsOf r = ex
   | error e => rw [hr] at hk; cases hk
   | ok r => rw [hr] at hk; exact ⟨r, rfl, opsBeq_eq hk⟩
 
+/-- the identifiers of the example are not quoted (it is parser output) -/
+theorem ex_idsPlain : IdsPlain (wsOfTree exTree) := by
+  have hid : exTree.idOK := by
+    unfold exTree
+    split
+    · rename_i r hr; exact parse_idOK hr
+    · simp
+  intro g
+  unfold Workspace.tree
+  cases g with
+  | zero => simpa [wsOfTree] using idsPlain_ofTree hid
+  | succ g => simpa [wsOfTree] using defaultTree_idsPlain
+
 /-- the four properties hold of a log that has definitions and a reference -/
 example : RefsValid exOps 0 ∧ NamedRefs exOps ∧ TextOk (fileText (wsOfTree exTree)) exOps ∧ DisjointLocs exOps := by
   obtain ⟨r, hr, ho⟩ := ex_index
   rw [← ho]
   exact ⟨index_refsValid ex_ready hr, index_namedRefs ex_ready hr, index_textOk ex_ready hr,
-    index_disjointLocs ex_ready hr⟩
+    index_disjointLocs ex_ready ex_idsPlain hr⟩
 
 /-- `index_same_text` applies with the cursor on the `f` of `let f`: the symbol is the field `f`
 declared at 12..13, the text under the cursor, the target and the reference is "f" -/
@@ -142,7 +160,7 @@ example : ∃ S, findSymbolAt (run exOps) 0 23 = some S ∧ S.define = ⟨0, 12,
     ∀ x ∈ S.refs, fileText (wsOfTree exTree) x = S.name := by
   obtain ⟨r, hr, ho⟩ := ex_index
   have hc : cursorLoc (run exOps) 0 23 = some ⟨0, 23, 24⟩ := by decide
-  obtain ⟨S, hS, h1, h2, h3⟩ := index_same_text ex_ready hr 0 23 ⟨0, 23, 24⟩ (by rw [ho]; exact hc)
+  obtain ⟨S, hS, h1, h2, h3⟩ := index_same_text ex_ready ex_idsPlain hr 0 23 ⟨0, 23, 24⟩ (by rw [ho]; exact hc)
   rw [ho] at hS
   have hS' : findSymbolAt (run exOps) 0 23 = some ⟨['f'], ⟨0, 12, 13⟩, [⟨0, 23, 24⟩]⟩ := rfl
   have : S = ⟨['f'], ⟨0, 12, 13⟩, [⟨0, 23, 24⟩]⟩ := by rw [hS] at hS'; exact Option.some.inj hS'
@@ -155,7 +173,7 @@ example : gotoDef (run exOps) 0 23 = some ⟨0, 12, 13⟩ := by
   obtain ⟨r, hr, ho⟩ := ex_index
   have hs : RefStable (opsOf r) := by rw [ho]; exact refStableB_sound (by decide)
   have hf : findSymbolAt (run (opsOf r)) 0 12 = some ⟨['f'], ⟨0, 12, 13⟩, [⟨0, 23, 24⟩]⟩ := by rw [ho]; rfl
-  have := index_goto_from_references_agrees ex_ready hr hs 0 12 _ hf ⟨0, 23, 24⟩ (by simp) (by decide) 23 (by decide)
+  have := index_goto_from_references_agrees ex_ready ex_idsPlain hr hs 0 12 _ hf ⟨0, 23, 24⟩ (by simp) (by decide) 23 (by decide)
   rwa [ho] at this
 
 /-! ### `RefStable` does not follow from `Ready` -/
@@ -209,8 +227,14 @@ theorem refStable_not_from_ready :
 /-- the other four properties do hold of this log (they are theorems for every ready workspace) -/
 example : RefsValid badOps 0 ∧ NamedRefs badOps ∧ TextOk (fileText (wsOfTree badTree)) badOps ∧ DisjointLocs badOps := by
   obtain ⟨r, hr, ho⟩ := bad_index
-  rw [← ho]
-  exact ⟨index_refsValid bad_ready hr, index_namedRefs bad_ready hr, index_textOk bad_ready hr,
-    index_disjointLocs bad_ready hr⟩
+  refine ⟨?_, ?_, ?_, ?_⟩
+  · rw [← ho]; exact index_refsValid bad_ready hr
+  · rw [← ho]; exact index_namedRefs bad_ready hr
+  · rw [← ho]; exact index_textOk bad_ready hr
+  · -- every location of this log is empty
+    intro a ha b hb _ hae _
+    exfalso
+    simp [registrations, badOps] at ha
+    rcases ha with rfl | rfl | rfl <;> simp [Loc.isEmpty] at hae
 
 end Tg.C06
